@@ -97,6 +97,8 @@ pub struct OligoCase {
     pub header: bool,
     pub delim: String,
     pub records: Vec<Vec<u8>>,
+    /// batch-memory limit in bases (None = the default 4 GiB)
+    pub memory: Option<usize>,
 }
 
 impl OligoCase {
@@ -110,6 +112,7 @@ impl OligoCase {
             hex(self.delim.as_bytes()),
             self.records.iter().map(|r| hex(r)).collect::<Vec<_>>().join(","),
             fmt_choices(choices),
+            self.memory.map(|m| m.to_string()).unwrap_or_else(|| "default".into()),
         ]
     }
     fn from_argv(a: &[String]) -> (OligoCase, Vec<u8>) {
@@ -120,12 +123,13 @@ impl OligoCase {
                 header: a[2] == "1",
                 delim: String::from_utf8(unhex(&a[3])).unwrap(),
                 records: if a[4].is_empty() { vec![] } else { a[4].split(',').map(unhex).collect() },
+                memory: a.get(6).and_then(|m| m.parse().ok()),
             },
             parse_choices(a.get(5).map(|s| s.as_str()).unwrap_or("")),
         )
     }
     fn describe(&self) -> String {
-        format!("oligo mmap writer: {} workers, k={}, header={}, delimiter {:?}, records {:?}", self.threads, self.k, self.header, self.delim, self.records.iter().map(|r| show(r)).collect::<Vec<_>>())
+        format!("oligo mmap writer: {} workers, k={}, header={}, delimiter {:?}, batch-memory limit {}, records {:?}", self.threads, self.k, self.header, self.delim, self.memory.map(|m| m.to_string()).unwrap_or_else(|| "default".into()), self.records.iter().map(|r| show(r)).collect::<Vec<_>>())
     }
 }
 
@@ -136,6 +140,9 @@ fn oligo_exec(case: &OligoCase, inp: &str, outp: &str, prefix: &[u8], opts: Exec
         oc.set_threads(case.threads);
         oc.set_header(case.header);
         oc.set_delim(case.delim.clone());
+        if let Some(m) = case.memory {
+            oc.set_max_memory(m);
+        }
         oc.verif_vectorise_mmap()
     });
     let bytes = std::fs::read(outp).unwrap_or_default();
@@ -385,9 +392,27 @@ fn oligo_cases(ctx: &Ctx) -> Vec<(OligoCase, Option<u32>, String)> {
                 header,
                 delim: if header { ",".into() } else { " ".into() },
                 records: recs[..r].to_vec(),
+                memory: None,
             },
             bound,
             format!("N{n}R{r}k{k}{}", if header { "H" } else { "" }),
+        ));
+    }
+    // the batch-memory limit is a public setting of the computer: small limits (about one, two and three records
+    // worth of bases) crossed with the interleavings, on enough records for several rounds of pulling
+    let six: Vec<Vec<u8>> = vec![b"AAAC".to_vec(), b"CCG".to_vec(), b"ACGTT".to_vec(), b"GGA".to_vec(), b"TTTTA".to_vec(), b"CAG".to_vec()];
+    for (n, r, mem, bound) in [(2usize, 5usize, 1usize, Some(ctx.pick(2, 3))), (2, 6, 8, Some(ctx.pick(3, 5))), (2, 6, 11, Some(ctx.pick(3, 5))), (3, 6, 8, Some(ctx.pick(2, 3)))] {
+        v.push((
+            OligoCase {
+                threads: n,
+                k: 1,
+                header: false,
+                delim: " ".into(),
+                records: six[..r].to_vec(),
+                memory: Some(mem),
+            },
+            bound,
+            format!("N{n}R{r}k1mem{mem}"),
         ));
     }
     v
@@ -453,6 +478,7 @@ pub fn c14(ctx: &mut Ctx) {
                             header,
                             delim: delim.to_string(),
                             records: recs[..r].to_vec(),
+                            memory: if (r + threads) % 3 == 0 { Some(7) } else { None },
                         };
                         c14_lattice_case(ctx, &case);
                         n += 1;
@@ -1157,7 +1183,7 @@ fn c05_write_input(dir: &str, records: &[Vec<u8>], container: &str) -> String {
 
 #[allow(clippy::too_many_arguments)]
 fn c05_config(ctx: &mut Ctx, set: &str, records: &[Vec<u8>], k: usize, container: &str, threads: usize, limit: usize, writer: &str, header: bool, delim: &str) {
-    let argv = vec!["case".to_string(), "C05cfg".to_string(), set.to_string(), k.to_string(), container.to_string(), threads.to_string(), limit.to_string(), writer.to_string(), (header as u8).to_string(), hex(delim.as_bytes())];
+    let argv = vec!["case".to_string(), "C05cfg".to_string(), set.to_string(), k.to_string(), container.to_string(), threads.to_string(), limit.to_string(), writer.to_string(), (header as u8).to_string(), hex(delim.as_bytes()), records.len().to_string()];
     ctx.journal.note(|| format!("C05 cfg {:?}", argv));
     ctx.rep.evaluations += 1;
     let inp = c05_write_input(&ctx.scratch, records, container);
@@ -1183,7 +1209,7 @@ fn c05_config(ctx: &mut Ctx, set: &str, records: &[Vec<u8>], k: usize, container
         Ok(Ok(())) => {}
     }
     let bytes = std::fs::read(&outp).unwrap_or_default();
-    let case = OligoCase { threads, k, header, delim: delim.to_string(), records: records.to_vec() };
+    let case = OligoCase { threads, k, header, delim: delim.to_string(), records: records.to_vec(), memory: Some(limit) };
     if let Err((key, which)) = oligo_rows_in_order(&case, &bytes) {
         return viol(ctx, &key, size, format!("{what}: {which}"), argv);
     }
@@ -1205,9 +1231,6 @@ pub fn c05_lattice(ctx: &mut Ctx) {
         for threads in 1..=16usize {
             for writer in ["mmap", "batch"] {
                 for &limit in &limits {
-                    if writer == "mmap" && limit != limits[4] {
-                        continue; // the mmap writer has no batches
-                    }
                     for container in containers {
                         if set == "long-first" && container == "fasta-w1" {
                             continue;
@@ -1247,6 +1270,19 @@ pub fn c05_lattice(ctx: &mut Ctx) {
             }
         }
     }
+    // every record count 0..=40 (and a few larger ones) x threads 1..=8, 16 x both writers x small limits: how a batch is
+    // split over the pool must not matter
+    let pool: Vec<Vec<u8>> = c05_record_set("five-hundred");
+    for nrec in (0..=40usize).chain([63, 64, 65, 127, 129]) {
+        for threads in (1..=8usize).chain([16]) {
+            for (writer, limit) in [("mmap", 4usize << 30), ("mmap", 40), ("batch", 4 << 30), ("batch", 40), ("batch", 1)] {
+                if sh.mine() {
+                    c05_config(ctx, "five-hundred", &pool[..nrec], 2, "fasta", threads, limit, writer, nrec % 2 == 1, " ");
+                    n += 1;
+                }
+            }
+        }
+    }
     ctx.rep.count("cases.lattice", n);
     if ctx.shard.is_first() {
         ctx.rep.sample("configuration: 500 records, wrapped FASTA width 3, batch writer, 16 threads, batch limit 7 bases, header on, delimiter tab".to_string());
@@ -1256,6 +1292,9 @@ pub fn c05_lattice(ctx: &mut Ctx) {
 }
 
 pub fn replay_c05cfg(ctx: &mut Ctx, a: &[String]) {
-    let recs = c05_record_set(&a[1]);
+    let mut recs = c05_record_set(&a[1]);
+    if let Some(n) = a.get(9).and_then(|n| n.parse::<usize>().ok()) {
+        recs.truncate(n);
+    }
     c05_config(ctx, &a[1], &recs, a[2].parse().unwrap(), &a[3], a[4].parse().unwrap(), a[5].parse().unwrap(), &a[6], a[7] == "1", &String::from_utf8(unhex(&a[8])).unwrap());
 }
